@@ -82,10 +82,10 @@ func lex(src string) ([]tok, bool) {
 // ---------------------------------------------------------------- AST
 
 type operand struct {
-	kind byte    // 'p' parameter, 'l' literal, 'c' column, 'f' function call
-	n    int     // parameter number
-	v    Value   // literal value: nil | bool | string | Num
-	name string  // column / function name
+	kind byte   // 'p' parameter, 'l' literal, 'c' column, 'f' function call
+	n    int    // parameter number
+	v    Value  // literal value: nil | bool | string | Num
+	name string // column / function name
 	args []operand
 }
 
@@ -410,30 +410,32 @@ func (p *parser) prune() *prune {
 	return pr
 }
 
+// coldef parses "name type[(n,..)] [not null | null | primary key | unique | default literal-or-f()]...".
+// Constraints are parsed and ignored; a function default such as now() is stored as NULL.
 func (p *parser) coldef() coldef {
 	d := coldef{name: p.ident()}
 	if t := p.peek(); t.k != 'i' {
 		p.fail()
 	} else {
-		d.typ = t.s
+		d.typ, p.i = t.s, p.i+1
 	}
-	for depth := 0; p.i < len(p.t); {
-		t := p.peek()
-		if t.k == 'o' && depth == 0 && (t.s == "," || t.s == ")") {
-			break
+	for open := p.op("("); open && !p.op(")"); p.i++ {
+		if t := p.peek(); t.k != 'n' && (t.k != 'o' || t.s != ",") {
+			p.fail()
 		}
-		if t.k == 'o' && (t.s == "(" || t.s == ")") {
-			depth += map[string]int{"(": 1, ")": -1}[t.s]
-		}
-		if p.kw("default") {
-			if nx := p.peek(); nx.k != 'i' || nx.s == "true" || nx.s == "false" {
-				d.def = p.operand().v // function defaults such as now() are stored as NULL
+	}
+	for {
+		switch {
+		case p.kw("not", "null"), p.kw("null"), p.kw("primary", "key"), p.kw("unique"):
+		case p.kw("default"):
+			if o := p.operand(); o.kind == 'f' && len(o.args) == 0 {
+			} else if d.def = o.v; o.kind != 'l' {
+				p.fail()
 			}
-			continue
+		default:
+			return d
 		}
-		p.i++
 	}
-	return d
 }
 
 func (p *parser) stmt(st *stmt) {
